@@ -183,6 +183,21 @@ def check(ctx: Ctx) -> str:
     from ..emitrules import c17_skeleton_rules
 
     c17_skeleton_rules(ctx)
+
+    ctx.rule("R6", "`{% from t import name %}` compiles to a raw getattr(included_template, name, missing) that bypasses environment.getattr: the parser is the only guard, it must reject every *imported* name (not the alias) that starts with an underscore before recording it")
+    pf = repo.func("parser:Parser.parse_from")
+    apps = [c for c in astq.calls(pf.node) if astq.callee(c) == "node.names.append" and c.args]
+    ctx.floor("node.names.append sites in parse_from", len(apps), 2)
+    for c in apps:
+        a = c.args[0]
+        imported = a.elts[0] if isinstance(a, ast.Tuple) and a.elts else a
+        itxt = ast.unparse(imported)
+        gs = astq.guard_texts(pf.node, c)
+        ok = any(g == f"{itxt}.startswith('_')" and not pol for g, pol in gs)
+        ctx.check(ok, f"parse_from:{ast.unparse(a)}", "parser:Parser.parse_from", f"`{itxt}` recorded without the underscore check",
+                  f"parse_from records the imported name `{itxt}` on a path where `{itxt}.startswith('_')` was not rejected (guards: {[g for g, p in gs]}): `{{% from 'lib' import __dict__ as d %}}` then reads a private attribute of the template module with a raw getattr, also in the sandbox", pf.loc(c))
+    vf = repo.func("compiler:CodeGenerator.visit_FromImport")
+    ctx.check("getattr(included_template, {name!r}, missing)" in ast.unparse(vf.node), "from-import:emission", "compiler:CodeGenerator.visit_FromImport", "raw getattr emission", "visit_FromImport is expected to emit getattr(included_template, <name>, missing) (the rule above guards exactly this)", vf.loc())
     return __doc__ or ""
 
 
